@@ -65,3 +65,157 @@ package parser
 //@   invariant -1 <= rangeindex && rangeindex < len(nodes)
 //@   invariant hullSeq(spans, len(spans)) == SpanOfList(nodes, rangeindex + 1)
 //@   decreases len(nodes) - rangeindex
+
+// ---------------------------------------------------------------- lex.go
+
+//@ func parser.(*scanner).next
+//@   use lex
+//@   requires s != nil && scOK(s.last, s.pos, len(s.s))
+//@   ensures scOK(s.last, s.pos, len(s.s))
+//@   ensures !result1 ==> old(s.pos) == len(s.s) && s.pos == old(s.pos) && s.last == old(s.last) && result0 == 0
+//@   ensures result1 ==> old(s.pos) < len(s.s) && s.last == old(s.pos) && s.pos == old(s.pos) + runeWidth(s.s, old(s.pos)) && result0 == runeAt(s.s, old(s.pos))
+//@   assigns s.pos, s.last
+
+//@ func parser.(*scanner).prev
+//@   inline
+//@   requires s != nil
+//@   ensures s.pos == old(s.last) && s.last == old(s.last)
+//@   assigns s.pos
+
+//@ func parser.(*scanner).setPos
+//@   inline
+//@   requires s != nil
+//@   ensures s.pos == pos && s.last == pos
+//@   assigns s.pos, s.last
+
+//@ func parser.isAlpha
+//@   inline
+//@   use lex
+//@   ensures result == isAlphaC(c)
+
+//@ func parser.isDigit
+//@   inline
+//@   use lex
+//@   ensures result == isDigitC(c)
+
+//@ func parser.isHexDigit
+//@   inline
+//@   use lex
+//@   ensures result == isHexC(c)
+
+//@ func parser.(*scanner).ident
+//@   use lex
+//@   requires s != nil && scOK(s.last, s.pos, len(s.s))
+//@   requires s.pos < len(s.s) && identStartC(runeAt(s.s, s.pos))
+//@   ensures scOK(s.last, s.pos, len(s.s))
+//@   ensures @span: result.Span.Start == old(s.pos) && result.Span.End == s.pos && old(s.pos) < s.pos
+//@   ensures @first: identStartC(s.s[old(s.pos)])
+//@   ensures @rest: forall(i, old(s.pos) + 1, s.pos, identContC(s.s[i]))
+//@   ensures @longest: s.pos == len(s.s) || !identContC(s.s[s.pos])
+//@   ensures @kind: result.Kind == identKind(s.s[old(s.pos):s.pos]) && result.Value == identValue(s.s[old(s.pos):s.pos])
+//@   assigns s.pos, s.last
+//@ loop 1
+//@   invariant scOK(s.last, s.pos, len(s.s)) && start < s.pos
+//@   invariant identStartC(s.s[start])
+//@   invariant forall(i, start + 1, s.pos, identContC(s.s[i]))
+//@   decreases len(s.s) - s.pos
+
+//@ func parser.errorToken
+//@   ensures result.Kind == TokenError && result.Span == span
+
+//@ func parser.(*scanner).quotedIdent
+//@   use lex
+//@   requires s != nil && scOK(s.last, s.pos, len(s.s))
+//@   requires s.pos < len(s.s) && s.s[s.pos] == '`'
+//@   ensures scOK(s.last, s.pos, len(s.s))
+//@   ensures @span: result.Span.Start == old(s.pos) && result.Span.End == s.pos && old(s.pos) < s.pos
+//@   ensures @kind: result.Kind == TokenQuotedIdentifier || result.Kind == TokenError
+//@   ensures @closed: result.Kind == TokenQuotedIdentifier ==> old(s.pos) + 2 <= s.pos && s.s[s.pos-1] == '`' && qbody(s.s, old(s.pos) + 1, s.pos - 1) && (s.pos == len(s.s) || s.s[s.pos] != '`')
+//@   ensures @value: result.Kind == TokenQuotedIdentifier ==> result.Value == strings.ReplaceAll(s.s[old(s.pos)+1:s.pos-1], "``", "`")
+//@   ensures @unterminated: result.Kind == TokenError ==> s.s[old(s.pos)] == '`' && qbody(s.s, old(s.pos) + 1, s.pos) && (s.pos == len(s.s) || s.s[s.pos] == '\n')
+//@   assigns s.pos, s.last
+//@ loop 1
+//@   invariant scOK(s.last, s.pos, len(s.s)) && start < s.pos && s.s[start] == '`'
+//@   invariant qbody(s.s, start + 1, s.pos)
+//@   decreases len(s.s) - s.pos
+
+//@ func parser.(*scanner).numberExponent
+//@   use lex
+//@   requires s != nil && scOK(s.last, s.pos, len(s.s))
+//@   ensures scOK(s.last, s.pos, len(s.s))
+//@   ensures @notfound: !found ==> s.pos == old(s.pos)
+//@   ensures @found: found ==> expHead(s.s, old(s.pos), s.pos) && digitEnd(s.s, s.pos)
+//@   assigns s.pos, s.last
+//@ loop 1
+//@   invariant scOK(s.last, s.pos, len(s.s)) && expHead(s.s, start, s.pos)
+//@   decreases len(s.s) - s.pos
+
+//@ func parser.normalizeNumberValue
+//@   use lex
+//@   ensures @alphabet: numBytesOf(s) ==> numBytesOf(result)
+//@   ensures @nonempty: len(result) > 0
+
+//@ func parser.(*scanner).numberOrDot
+//@   use lex
+//@   requires s != nil && scOK(s.last, s.pos, len(s.s))
+//@   requires s.pos < len(s.s) && (isDigitC(s.s[s.pos]) || s.s[s.pos] == '.')
+//@   ensures scOK(s.last, s.pos, len(s.s))
+//@   ensures @span: result.Span.Start == old(s.pos) && result.Span.End == s.pos && old(s.pos) < s.pos
+//@   ensures @kind: result.Kind == TokenNumber || result.Kind == TokenDot || result.Kind == TokenError
+//@   ensures @dot: result.Kind == TokenDot ==> s.pos == old(s.pos) + 1 && s.s[old(s.pos)] == '.' && digitEnd(s.s, s.pos) && result.Value == ""
+//@   ensures @alphabet: result.Kind == TokenNumber ==> allNumBytes(s.s, old(s.pos), s.pos)
+//@   ensures @longest: result.Kind == TokenNumber ==> digitEnd(s.s, s.pos)
+//@   ensures @onedot: result.Kind == TokenNumber ==> ndots(s.s, old(s.pos), s.pos) <= 1
+//@   ensures @value: result.Kind == TokenNumber ==> numBytesOf(result.Value) && len(result.Value) > 0
+//@   ensures @brokenhex: result.Kind == TokenError ==> s.s[old(s.pos)] == '0' && (s.s[old(s.pos)+1] == 'x' || s.s[old(s.pos)+1] == 'X') && (s.pos == old(s.pos) + 2 || (old(s.pos) + 2 < s.pos && allHex(s.s, old(s.pos) + 2, s.pos)))
+//@   assigns s.pos, s.last
+//@ loop 1
+//@   invariant scOK(s.last, s.pos, len(s.s)) && hexDigitStart == start + 2 && hexDigitStart < s.pos
+//@   invariant s.s[start] == '0' && (s.s[start+1] == 'x' || s.s[start+1] == 'X')
+//@   invariant allHex(s.s, hexDigitStart, s.pos)
+//@   decreases len(s.s) - s.pos
+//@ loop 2
+//@   invariant scOK(s.last, s.pos, len(s.s)) && start < s.pos
+//@   invariant forall(i, start, s.pos, isDigitC(s.s[i]) || s.s[i] == '.')
+//@   invariant ndots(s.s, start, s.pos) == ite(hasDecimalPoint, 1, 0)
+//@   decreases len(s.s) - s.pos
+
+//@ func parser.(*scanner).string
+//@   use lex
+//@   requires s != nil && scOK(s.last, s.pos, len(s.s))
+//@   requires s.pos < len(s.s) && (s.s[s.pos] == '\'' || s.s[s.pos] == '"')
+//@   ensures scOK(s.last, s.pos, len(s.s))
+//@   ensures @span: result.Span.Start == old(s.pos) && result.Span.End == s.pos && old(s.pos) < s.pos
+//@   ensures @kind: result.Kind == TokenString || result.Kind == TokenError
+//@   ensures @closed: result.Kind == TokenString ==> old(s.pos) + 2 <= s.pos && s.s[s.pos-1] == s.s[old(s.pos)] && sbody(s.s, s.s[old(s.pos)], old(s.pos) + 1, s.pos - 1)
+//@   ensures @unterminated: result.Kind == TokenError ==> (s.pos == len(s.s) || s.s[s.pos] == '\n') && (sbody(s.s, s.s[old(s.pos)], old(s.pos) + 1, s.pos) || (sbody(s.s, s.s[old(s.pos)], old(s.pos) + 1, s.pos - 1) && s.s[s.pos-1] == '\\'))
+//@   assigns s.pos, s.last
+//@ loop 1
+//@   invariant scOK(s.last, s.pos, len(s.s)) && start < s.pos && valueStart == start + 1
+//@   invariant quoteChar == s.s[start] && (quoteChar == '\'' || quoteChar == '"')
+//@   invariant sbody(s.s, quoteChar, valueStart, s.pos)
+//@   invariant valueBuilder == nil || valueBuilder >= old(alloc())
+//@   invariant forall(r, 0, old(alloc()), out(r) == old(out(r)))
+//@   decreases len(s.s) - s.pos
+
+//@ func parser.Scan
+//@   use lex
+//@   function scanOf
+//@   ensures @function: result == scanOf(query)
+//@   ensures @inrange: forall(j, 0, len(result), 0 <= result[j].Span.Start && result[j].Span.Start < result[j].Span.End && result[j].Span.End <= len(query))
+//@   ensures @ordered: forall(i, 0, len(result), forall(j, i + 1, len(result), result[i].Span.End <= result[j].Span.Start))
+//@   ensures @gaps: forall(j, 0, len(result), gap(query, prevEnd(result, j), result[j].Span.Start))
+//@   ensures @tailgap: gap(query, prevEnd(result, len(result)), len(query))
+//@   ensures @tokens: forall(j, 0, len(result), tokenOK(query, result[j]))
+//@ loop 1
+//@   invariant s.s == query && scOK(s.last, s.pos, len(query))
+//@   invariant forall(j, 0, len(tokens), 0 <= tokens[j].Span.Start && tokens[j].Span.Start < tokens[j].Span.End && tokens[j].Span.End <= s.pos)
+//@   invariant forall(i, 0, len(tokens), forall(j, i + 1, len(tokens), tokens[i].Span.End <= tokens[j].Span.Start))
+//@   invariant forall(j, 0, len(tokens), gap(query, prevEnd(tokens, j), tokens[j].Span.Start))
+//@   invariant gap(query, prevEnd(tokens, len(tokens)), s.pos)
+//@   invariant forall(j, 0, len(tokens), tokenOK(query, tokens[j]))
+//@   decreases len(query) - s.pos
+//@ loop 2
+//@   invariant s.s == query && scOK(s.last, s.pos, len(query))
+//@   invariant start + 2 <= s.pos && query[start] == '/' && query[start+1] == '/' && noNL(query, start + 2, s.pos)
+//@   decreases len(query) - s.pos
